@@ -2610,7 +2610,8 @@ def concatenate(arrays: Sequence[Array], axis: int = 0) -> Array:
         return ary.shape[:axis] + ary.shape[axis+1:]
 
     for array in arrays[1:]:
-        if shape_except_axis(array) != shape_except_axis(arrays[0]):
+        if (array.ndim != arrays[0].ndim
+                or shape_except_axis(array) != shape_except_axis(arrays[0])):
             raise ValueError("arrays must have the same shape except along"
                     f" dimension #{axis}.")
 
